@@ -865,3 +865,54 @@ def run_forwarded_rule_params(res: Results, idx: Index) -> None:
             else:
                 res.ok("R-C10h", site, key, f"{pname} rules ({', '.join(tables)}) need nothing beyond {sorted(bound) or 'the operands'}", owner)
     res.analysed["forwarded_rule_pairs"] = n
+
+
+# ---------------------------------------------------------------------------------------------- R-C10j
+# (lax primitive, parameter) -> what the primitive itself validates when a forwarded rule re-binds it with the substitute's parameters
+FORWARDED_PARAM_DOMAINS = {
+    ("reshape_p", "new_sizes"): ("-1", "lax.reshape_p requires all new_sizes positive; jnp.reshape's -1 (\"infer\") must be resolved before binding"),
+}
+
+
+def run_forwarded_param_domains(res: Results, idx: Index) -> None:
+    """Rules forwarded from a lax primitive (JVP / transpose) re-bind THAT primitive with the parameters the substitute bound.  A
+    value the library wrapper accepts but the lax primitive rejects (jnp.reshape's -1) therefore has to be normalised by the
+    substitute before `bind`: otherwise the plain export works and every differentiated export of the same function raises."""
+    res.rule("R-C10j", "parameters bound on a substitute whose rules are forwarded from a lax primitive are normalised into that primitive's own value domain", floor=1)
+    n = 0
+    for m in idx.product_modules():
+        if "/plugins/" not in m.rel or "register_allowlisted_original_rule_forwarding" not in m.src:
+            continue
+        regs = [c for c in ast.walk(m.tree) if isinstance(c, ast.Call) and (call_name(c) or "").split(".")[-1] == "register_allowlisted_original_rule_forwarding"]
+        for r in regs:
+            orig = next((src(kw.value, 60) for kw in r.keywords if kw.arg == "orig_prim"), src(r.args[0], 60) if r.args else "")
+            prim = orig.split(".")[-1]
+            for (p_, param), (bad_lit, why) in FORWARDED_PARAM_DOMAINS.items():
+                if prim != p_:
+                    continue
+                for fi in m.funcs.values():
+                    du = None
+                    for b in walk_no_nested(fi.node):
+                        if not (isinstance(b, ast.Call) and isinstance(b.func, ast.Attribute) and b.func.attr == "bind"):
+                            continue
+                        kw = next((k for k in b.keywords if k.arg == param), None)
+                        if kw is None:
+                            continue
+                        n += 1
+                        du = du or defuse(fi.node)
+                        key = f"{m.rel}::{fi.qualname}::forwarded-domain::{prim}.{param}"
+                        site = f"{m.rel}:{b.lineno}"
+                        clo = du.closure(names_in(kw.value)) | names_in(kw.value)
+                        exprs = [kw.value] + [d.value for nm in clo for d in du.defs.get(nm, []) if d.value is not None]
+                        normalised = False
+                        for e in exprs:
+                            for c in ast.walk(e):
+                                if isinstance(c, ast.Call):
+                                    g = idx.resolve_func(m, call_name(c) or "")
+                                    if g is not None and any(isinstance(x, ast.Compare) and any(src(y, 5) == bad_lit for y in [x.left] + x.comparators) for x in ast.walk(g.node)):
+                                        normalised = True
+                        if normalised:
+                            res.ok("R-C10j", site, key, f"`{param}` passes through a helper that treats {bad_lit} before the bind", fi.qualname)
+                        else:
+                            res.violation("R-C10j", site, key, f"`{param}={src(kw.value, 30)}` is bound as the caller wrote it: {why} — jax.grad / jax.jvp of the exported function re-bind {prim} and raise", fi.qualname)
+    res.analysed["forwarded_param_domains"] = n
